@@ -325,6 +325,29 @@ func regionFails(start *ssa.BasicBlock) bool {
 			}
 		}
 	}
+	if idx < 0 {
+		// comma-ok style: a function without an error result that answers (..., false) on the failure branch
+		// reports the failure to its caller, which takes another way
+		res := fn.Signature.Results()
+		if n := res.Len(); n > 0 {
+			if bt, ok := res.At(n - 1).Type().Underlying().(*types.Basic); ok && bt.Kind() == types.Bool {
+				for _, b := range fn.Blocks {
+					if b != start && !start.Dominates(b) {
+						continue
+					}
+					ret, ok := b.Instrs[len(b.Instrs)-1].(*ssa.Return)
+					if !ok || len(ret.Results) != n {
+						continue
+					}
+					if k, isK := ConstBool(ret.Results[n-1]); isK && !k {
+						exits++
+					} else {
+						bad++
+					}
+				}
+			}
+		}
+	}
 	return exits > 0 && bad == 0
 }
 
